@@ -65,6 +65,16 @@ func c04Oracle(pc progCase, r *Result) {
 		return
 	}
 	if ov.Out != ot.Out {
+		// the VM's documented right-to-left argument evaluation, identified precisely: the
+		// interpreter equals the reference, the VM equals the reference run right to left
+		if ref := hs.Eval(pc.Prog, &pc.P, refBudget); ref.Unspec == "" {
+			if c1, _ := compareRef(ref, ot, false); c1 == "" {
+				if refineArgOrder("OUTPUT", pc, ref, ov, false) != "OUTPUT" {
+					r.Fail("BACKENDS-DIFFER:arg-order (VM evaluates call arguments right to left)", pc.Tags, pc.P.Text, fmt.Sprintf("vm: %s\ntree: %s", ov.String(), ot.String()))
+					return
+				}
+			}
+		}
 		r.Fail("BACKENDS-DIFFER:output", pc.Tags, pc.P.Text, fmt.Sprintf("vm: %s\ntree: %s", ov.String(), ot.String()))
 	}
 }
